@@ -4,6 +4,6 @@ p=$1; tier=${2:-quick}; shift; shift
 seeds=${@:-0 1 2 3}
 mkdir -p /tmp/triage
 for s in $seeds; do
-  VERIF_SEED=$s VF_TRIAGE=1 VF_TRIAGE_N=${VF_TRIAGE_N:-2} /verif/vf $tier $p > /tmp/triage/$p.$tier.$s.txt 2>&1
+  VERIF_SEED=$s VF_TRIAGE=1 VF_TRIAGE_N=${VF_TRIAGE_N:-2} "$(cd "$(dirname "$0")/.." && pwd)/vf" $tier $p > /tmp/triage/$p.$tier.$s.txt 2>&1
   echo "seed $s exit $?: $(grep -v WARNING /tmp/triage/$p.$tier.$s.txt | grep -E "^TRIAGE|^$p " | tr '\n' ' ' | cut -c1-400)"
 done
